@@ -21,4 +21,7 @@ def unmatchedMode (m : Option String) : Bool :=
   | none => false
   | some um => (Py.findFrom "no-keep".toList um.toList 0).isNone
 
+/-- `source-mode`: the csvpath reads what its predecessor collected iff the field is exactly `preceding` -/
+def sourceMode (m : Option String) : Bool := m == some "preceding"
+
 end Model.Modes
